@@ -28,6 +28,10 @@ pub(crate) enum Act {
     /// exec_mut on admin/base: create node "x" with k = 0 (follower scenario seed)
     SeedBase,
     GrantRole { db: String, user: String },
+    /// exec_mut on admin/base: select "y", set key "k" of node "x" and add one node - fails as long as "y" does not exist
+    SetOnY { v: i64 },
+    /// exec_mut on admin/base: create node "y" (fails if it exists already)
+    MakeY,
 }
 
 /// What the (simulated) leader sends to the follower under test.
@@ -54,8 +58,19 @@ fn generate_follower(rng: &mut Rng) -> Plan {
     // log: 1 = add the base database, 2 = seed it, 3.. = conflicting writes (same key, one node each)
     let total = rng.range(5, 11);
     let mut acts = vec![Act::AddDb { db: "base".into() }, Act::SeedBase];
+    // some logs contain an action that fails when it is executed (and would succeed if it were ever executed
+    // again later): it must be executed exactly once like every other
+    let failing = rng.chance(1, 2);
+    let mut made_y = false;
     for i in 3..=total {
-        acts.push(Act::SetKey { v: 100 + i as i64 });
+        acts.push(match rng.below(6) {
+            0 if failing => Act::SetOnY { v: 100 + i as i64 },
+            1 if failing && !made_y => {
+                made_y = true;
+                Act::MakeY
+            }
+            _ => Act::SetKey { v: 100 + i as i64 },
+        });
     }
     let mut msgs = vec![];
     let mut appended = 0u64;
@@ -85,7 +100,9 @@ pub(crate) fn generate(seed: u64, run: u64, _tier: Tier) -> Plan {
     let mut dbs: Vec<String> = vec![];
     let mut users: Vec<String> = vec![];
     for i in 0..n {
-        let a = match rng.below(6) {
+        let a = match rng.below(8) {
+            6 => Act::SetOnY { v: 100 + i as i64 },
+            7 => Act::MakeY,
             0 | 1 => Act::SetKey { v: 100 + i as i64 },
             2 => {
                 let db = format!("d{i}");
@@ -119,6 +136,8 @@ fn submit<'a>(s: &'a Server, a: &Act) -> ActFuture<'a> {
             queries: Queries(vec![QueryBuilder::insert().values([[("k", *v).into()]]).ids("x").query().into(), QueryBuilder::insert().nodes().count(1).query().into()]),
         })),
         Act::SeedBase => Box::pin(s.cluster.exec(seed_exec())),
+        Act::SetOnY { v } => Box::pin(s.cluster.exec(set_on_y(*v))),
+        Act::MakeY => Box::pin(s.cluster.exec(make_y())),
         Act::AddDb { db } => Box::pin(s.cluster.exec(DbAdd { owner: "admin".into(), db: db.clone(), db_type: DbKind::Mapped })),
         Act::ExecOn { db } => Box::pin(s.cluster.exec(DbExec { user: "admin".into(), owner: "admin".into(), db: db.clone(), queries: Queries(vec![QueryBuilder::insert().nodes().count(1).query().into()]) })),
         Act::AddUser { user } => {
@@ -127,6 +146,14 @@ fn submit<'a>(s: &'a Server, a: &Act) -> ActFuture<'a> {
         }
         Act::GrantRole { db, user } => Box::pin(s.cluster.exec(DbUserAdd { owner: "admin".into(), db: db.clone(), user: user.clone(), db_role: DbUserRole::Write })),
     }
+}
+
+fn set_on_y(v: i64) -> DbExec {
+    DbExec { user: "admin".into(), owner: "admin".into(), db: "base".into(), queries: Queries(vec![QueryBuilder::select().ids("y").query().into(), QueryBuilder::insert().values([[("k", v).into()]]).ids("x").query().into(), QueryBuilder::insert().nodes().count(1).query().into()]) }
+}
+
+fn make_y() -> DbExec {
+    DbExec { user: "admin".into(), owner: "admin".into(), db: "base".into(), queries: Queries(vec![QueryBuilder::insert().nodes().aliases("y").query().into()]) }
 }
 
 fn seed_exec() -> DbExec {
@@ -143,6 +170,8 @@ fn to_cluster_action(a: &Act) -> crate::action::ClusterAction {
         }
         .into(),
         Act::SeedBase => seed_exec().into(),
+        Act::SetOnY { v } => set_on_y(*v).into(),
+        Act::MakeY => make_y().into(),
         Act::AddDb { db } => DbAdd { owner: "admin".into(), db: db.clone(), db_type: DbKind::Mapped }.into(),
         Act::ExecOn { db } => DbExec { user: "admin".into(), owner: "admin".into(), db: db.clone(), queries: Queries(vec![QueryBuilder::insert().nodes().count(1).query().into()]) }.into(),
         Act::AddUser { user } => {
@@ -450,6 +479,9 @@ pub(crate) fn exec(plan: &Plan, trials: &mut Trials) -> RunReport {
     match r {
         Caught::Ok(Ok((conc, seq))) => {
             lh.str(&format!("{:?}{:?}", conc.order, conc.results));
+            if std::env::var("VERIF_TRACE").is_ok() {
+                eprintln!("C31 trace: order {:?} results {:?}\n  state {}\n  after restart {:?}\n  sequential {}", conc.order, conc.results, conc.state, conc.state_after_restart.as_ref().map(|s| s.to_string()), seq.state);
+            }
             let v = judge(plan, &conc, &seq);
             if let Some((class, detail)) = v {
                 rep.viols.push(Viol { property: "C31".into(), class, detail, trial: 0 });
